@@ -12,6 +12,8 @@ import (
 	"os/exec"
 	"path/filepath"
 	"regexp"
+	"runtime"
+	"runtime/pprof"
 	"strconv"
 	"strings"
 	"sync"
@@ -115,6 +117,9 @@ func supervise(prop, tier string, replayScenario map[string]interface{}) int {
 			cmd.Stdout = lf
 			cmd.Stderr = lf
 			cmd.Env = append(os.Environ(), "GOTRACEBACK=all", "VERIF_DIR="+dir)
+			if os.Getenv("GOMEMLIMIT") == "" { // soft limit: the collector works harder instead of 16 workers growing to 2x their live heap
+				cmd.Env = append(cmd.Env, "GOMEMLIMIT=2GiB")
+			}
 			if r.Race {
 				cmd.Env = append(cmd.Env, "GORACE=halt_on_error=0 exitcode=0 log_path="+base+".race")
 				matches, _ := filepath.Glob(base + ".race.*")
@@ -288,6 +293,13 @@ func worker(a []string) {
 		}
 	}()
 	r.Run(ctx)
+	if f := os.Getenv("VERIF_HEAPPROFILE"); f != "" { // debugging aid for the harness' own memory use
+		runtime.GC()
+		if hf, err := os.Create(f); err == nil {
+			_ = pprof.WriteHeapProfile(hf)
+			hf.Close()
+		}
+	}
 	close(stopFlush)
 	<-flushed
 	ctx.R.Freeze()
